@@ -838,6 +838,7 @@ def run(ctx):
         work(base_case(ctx.rng.__class__(v), [c07.achunk(0, 3000, [(0, 1, 0, 0), (2000, 2001, 1, 0)], tgt=1)],
                        v=v, rechunk=1, allow=1, sexec=0, lexec=0, driver="save_from", comp=v))
     print("C03 warm-up: %.1fs" % (lib.now() - t0), file=sys.stderr)
+    _pool[0] = None     # worker processes create their own thread pool
     nproc = max(1, min(8, (os.cpu_count() or 4) - 2))
     procs = multiprocessing.get_context("fork").Pool(nproc)
     try:
